@@ -151,7 +151,15 @@ pub fn run_gen(args: &Args, mut out: Out) {
                 let (mut sender, es) = Response::event_stream();
                 let mut expect: Vec<u8> = vec![];
                 for k in 0..r.gen_range(0..4) {
-                    let ev = Event::Message(format!("m{k}\nline2-{sid}"));
+                    // half of the events are sized so that their ENCODING (one chunk each) has a length at a boundary of
+                    // the hexadecimal size line: 15/16/17, 255/256/257, 4095/4096/4097, ... bytes
+                    let ev = if r.gen_bool(0.5) {
+                        let target = *[15usize, 16, 17, 255, 256, 257, 4095, 4096, 4097, 65527, 65528].choose(&mut r).unwrap();
+                        // "data: " + payload + "\n" = target bytes
+                        Event::Message("e".repeat(target - 7))
+                    } else {
+                        Event::Message(format!("m{k}\nline2-{sid}"))
+                    };
                     ev.push_to(&mut expect);
                     sender.send(ev);
                 }
